@@ -12,7 +12,21 @@ use crate::tape::Tape;
 use serde_json::{json, Value};
 
 // (G<i32> / G<u8>: the same trait path with different generic arguments are different bounds)
-const POOL: [&str; 7] = ["B0", "B1", "B2", "B3", "Clone", "G<i32>", "G<u8>"];
+// (`H<Out = u8>`: a bound with an associated-type binding; `for<'x> L<'x>`: a higher-ranked bound)
+const POOL: [&str; 9] = ["B0", "B1", "B2", "B3", "Clone", "G<i32>", "G<u8>", "H<Out = u8>", "for<'x> L<'x>"];
+
+/// `impl <POOL[b]> for <ty> {..}`
+fn impl_line(b: usize, ty: &str) -> String {
+    match b {
+        7 => format!("impl H for {ty} {{ type Out = u8; }}\n"),
+        8 => format!("impl<'x> L<'x> for {ty} {{}}\n"),
+        _ => format!("impl {} for {ty} {{}}\n", POOL[b]),
+    }
+}
+
+fn ident_of(b: usize) -> String {
+    POOL[b].chars().filter(|c| c.is_ascii_alphanumeric()).collect()
+}
 
 #[derive(Clone, Debug)]
 struct FnDecl {
@@ -135,7 +149,7 @@ pub fn gen_case(t: &mut Tape, feature_unimock: bool) -> Case {
     for b in 0..4 {
         src.push_str(&format!("pub trait B{b} {{}}\n"));
     }
-    src.push_str("pub trait Extra {}\npub trait G<T> {}\n");
+    src.push_str("pub trait Extra {}\npub trait G<T> {}\npub trait H { type Out; }\npub trait L<'x> {}\n");
     if module {
         src.push_str(&format!("#[::entrait::entrait({attr})]\npub mod m {{\n    use super::*;\n"));
         for f in &fns {
@@ -158,7 +172,7 @@ pub fn gen_case(t: &mut Tape, feature_unimock: bool) -> Case {
     }
     let mut fam: Vec<P> = vec![P { name: "XFull".into(), has: declared.clone(), field: "()", sync: true, send: true }];
     for &miss in &declared {
-        fam.push(P { name: format!("XMinus{}", POOL[miss].replace('<', "_").replace('>', "")), has: declared.iter().copied().filter(|b| *b != miss).collect(), field: "()", sync: true, send: true });
+        fam.push(P { name: format!("XMinus{}", ident_of(miss)), has: declared.iter().copied().filter(|b| *b != miss).collect(), field: "()", sync: true, send: true });
     }
     fam.push(P { name: "XAllPool".into(), has: (0..POOL.len()).collect(), field: "()", sync: true, send: true });
     fam.push(P { name: "XNotSync".into(), has: declared.clone(), field: "::core::cell::Cell<u8>", sync: false, send: true });
@@ -169,8 +183,8 @@ pub fn gen_case(t: &mut Tape, feature_unimock: bool) -> Case {
         src.push_str(&format!("{}pub struct {}({});\nimpl Extra for {} {{}}\n", if clone { "#[derive(Clone)] " } else { "" }, p.name, p.field, p.name));
         for &b in &p.has {
             if b != 4 {
-                let tr = POOL[b];
-                src.push_str(&format!("impl {tr} for {} {{}}\nimpl {tr} for ::entrait::Impl<{}> {{}}\n", p.name, p.name));
+                src.push_str(&impl_line(b, &p.name));
+                src.push_str(&impl_line(b, &format!("::entrait::Impl<{}>", p.name)));
             }
         }
         // (Impl<T> derives Clone when T: Clone, so `Impl<X>: Clone` iff `X: Clone`)
@@ -186,8 +200,8 @@ pub fn gen_case(t: &mut Tape, feature_unimock: bool) -> Case {
         sp.push_str(&format!("{}pub struct XBorrowed<'a>(pub &'a u8);\n", if clone { "#[derive(Clone)] " } else { "" }));
         for &b in &declared {
             if b != 4 {
-                let tr = POOL[b];
-                sp.push_str(&format!("impl<'a> {tr} for XBorrowed<'a> {{}}\nimpl<'a> {tr} for ::entrait::Impl<XBorrowed<'a>> {{}}\n"));
+                sp.push_str(&impl_line(b, "XBorrowed<'a>").replacen("impl<'x>", "impl<'a, 'x>", 1).replacen("impl H", "impl<'a> H", 1).replacen(&format!("impl {}", POOL[b]), &format!("impl<'a> {}", POOL[b]), 1));
+                sp.push_str(&impl_line(b, "::entrait::Impl<XBorrowed<'a>>").replacen("impl<'x>", "impl<'a, 'x>", 1).replacen("impl H", "impl<'a> H", 1).replacen(&format!("impl {}", POOL[b]), &format!("impl<'a> {}", POOL[b]), 1));
             }
         }
         sp.push_str("fn needs<T: TheTrait>(_: &T) {}\n");
@@ -247,7 +261,7 @@ fn run_single(name: &str, feature_unimock: bool, src: &str) -> Option<(String, S
 pub const TAPE_LEN: usize = 64;
 
 pub fn run(ctx: &mut Ctx) {
-    ctx.rule = "cases = entraited fns / modules of 1..4 fns declaring 0..4 dependency bounds from {B0..B3, Clone, G<i32>, G<u8>} inline, in a where clause, as `impl A + B`, split, or spread over \
+    ctx.rule = "cases = entraited fns / modules of 1..4 fns declaring 0..4 dependency bounds from {B0..B3, Clone, G<i32>, G<u8>, H<Out = u8>, for<'x> L<'x>} inline, in a where clause, as `impl A + B`, split, or spread over \
                 the fns of a module, by reference or by value, x mock settings {none, mock_api, unimock[=b], mockall[=b]} x unrelated options {?Send, export = false} x both cargo feature settings; each program probes \
                 `X: TheTrait` and `Impl<X>: TheTrait` at run time for a family of types (full, one per missing bound, all-pool, !Sync, Sync+!Send) and compares with the spec; \
                 non-trivial = >=2 declared bounds, a split declaration, or module fns with different bounds (every case has probes expected true and probes expected false); distinct = distinct program text"
